@@ -84,8 +84,36 @@ class CountMonitor(taps.Monitor):
     pass
 
 
+def install_judgement_counters(ctx):
+    """Checklist item 13: the evidence shows how often every judgement ran (counter 'judged:<family>:<field>'; the family is the
+    mechanism tag without the presentation / step / variant it was reached through)."""
+    import re
+
+    def family(mech):
+        m = re.sub(r'@[a-z-]+', '', mech)
+        m = re.sub(r'^(history):\d+', r'\1', m)
+        m = re.sub(r'^(alias|representation|options|boundary|metamorphic):[A-Za-z0-9=.\-]+(?=:|$)', r'\1', m)
+        m = re.sub(r'^scale:(unit|scaled|small-parameters:[A-Za-z-]+|large-parameters:[A-Za-z_-]+)', 'scale', m)
+        return m
+    c_close, c_equal, c_require = ctx.close, ctx.equal, ctx.require
+
+    def close(got, exp, mechanism, *args, **kw):
+        ctx.count('judged:' + family(mechanism))
+        return c_close(got, exp, mechanism, *args, **kw)
+
+    def equal(got, exp, mechanism, *args, **kw):
+        ctx.count('judged:' + family(mechanism))
+        return c_equal(got, exp, mechanism, *args, **kw)
+
+    def require(cond, mechanism, detail=None):
+        ctx.count('judged:' + family(mechanism))
+        return c_require(cond, mechanism, detail)
+    ctx.close, ctx.equal, ctx.require = close, equal, require
+
+
 def setup(ctx):
     global PE, ANP
+    install_judgement_counters(ctx)
     import pyerrors as pe
     import autograd.numpy as anp
     PE, ANP = pe, anp
